@@ -278,6 +278,9 @@ def r08_8(run, model):
 
 
 def run(run, model):
+    from rules import c19
+    run.rule("R08.9", "captured variables get distinct environment fields (shared with C19 R19.6)")
+    run.try_rule(c19.r19_6, model)
     run.try_rule(r08_7, model)
     run.try_rule(r08_8, model)
     run.try_rule(r08_5, model)
